@@ -790,6 +790,9 @@ class StepResult(Generic[TSimulatorState], metaclass=abc.ABCMeta):
                     seen_qubits.add(q)
                     measured_qubits.append(q)
 
+        # Parse the seed once, so that every draw below comes from one stream.
+        seed = value.parse_random_state(seed)
+
         # Perform whole-system sampling of the measured qubits.
         indexed_sample = self.sample(measured_qubits, repetitions, seed=seed)
 
